@@ -8,6 +8,7 @@
  *   B<be>          poll method: et (epoll-timerfd) | ep (epoll) | pp (ppoll) | po (poll)
  *   X<f>,<f>..     faults: nopwait2 permpwait2 notimerfd noppoll noeventfd2 noeventfd nocreate1
  *                          emfile eintr@<k> ctleintr@<k>
+ *                          efdok=<k>  (noeventfd2 / noeventfd take effect after k eventfds were created)
  *   M<n>           stop after n main waits (default 60)
  *   S <actions>    set-up actions, executed before iv_main()
  *   H<key>:<actions>/<actions>/..   script of handler <key>: the k-th invocation runs the k-th
@@ -644,6 +645,11 @@ static void run_case(char *line)
 					vk_faults.eintr_wait[vk_faults.n_eintr++] = atoi(f + 6);
 				else if (!strncmp(f, "ctleintr@", 9))
 					vk_faults.eintr_ctl = atoi(f + 9);
+				else if (!strncmp(f, "efdok=", 6)) {
+					vk_faults.efd_ok = atoi(f + 6);
+					if (vk_faults.efd_ok < 0)
+						vk_faults.efd_ok = 0;
+				}
 			}
 			break;
 		}
